@@ -43,6 +43,9 @@ func c17(c *Ctx) {
 	// round 7: a verify future parked with nobody to answer it; a batch whose
 	// futures are skipped by an early return
 	c09R2Verify(c, "R11/C09.R2")
+	// an isolated leader gives up (and answers its callers' futures) only
+	// through the lease check: the timer is always armed (C13.R2)
+	c13R2(c, "R11/C13.R2")
 	c08R5(c, "R11/C08.R5")
 }
 
